@@ -393,6 +393,17 @@ def execute(sc):
                 except Exception:
                     continue
                 operands = [operand, operand2]
+                if (st.get("unnamed") and axis == "taxa" and kind == "float" and not mm.is_square(key)
+                        and sc["cfg"]["present"].get("taxa", True)):
+                    # one of the matrices being concatenated has no taxon names: its block is nameless in the result,
+                    # the blocks of the named matrices keep their names
+                    try:
+                        operand2.taxa = None
+                        for e in new2:
+                            model.ent[(axis, e)]["taxa"] = None
+                        fault("concat_operand_without_names")
+                    except Exception:
+                        pass
                 if st["first"]:
                     expect[axis] = model.ids[axis] + new + new2
                     mk = lambda x: [x, operand, operand2]
